@@ -9,6 +9,7 @@ from ..constfold import try_fold
 from ..tables import tables_of
 from ..mutate import Mutant, in_func
 from . import c01, c18
+from ..report import Result
 
 ID = 'C02'
 EXPLANATION = (
@@ -499,6 +500,51 @@ def rule_r8(prog, res):
     res.floor('R8', 'create_in_document implementations', n, 5)
 
 
+# ------------------------------------------------------------------- R9
+def rule_r9(prog, res):
+    res.rule('R9', 'the MessagePack big-integer reader accepts both text '
+             'kinds the writer and peers can send (str and bytes)')
+    c = prog.cls('spyne.protocol.msgpack:MessagePackDocument')
+    f = c.methods.get('integer_from_bytes')
+    if f is None:
+        raise AnalysisError('MessagePackDocument.integer_from_bytes',
+                            'not found')
+    n = 0
+    for call in calls_in(f.node):
+        if call_name(call) != 'isinstance' or len(call.args) != 2:
+            continue
+        n += 1
+        t = call.args[1]
+        names = [(dotted(e) or unparse(e)).split('.')[-1]
+                 for e in (t.elts if isinstance(t, ast.Tuple) else [t])]
+        has_bytes = any(x in ('binary_type', 'bytes') for x in names)
+        has_text = any(x in ('text_type', 'str', 'string_types', 'unicode')
+                       for x in names)
+        ok = has_bytes and has_text
+        where = '%s:%d' % (f.module.relpath, call.lineno)
+        res.ob('R9', where, 'integer_from_bytes: text form recognised by %s'
+               % unparse(call)[:60], 'ok' if ok else 'VIOLATED')
+        if not ok:
+            res.finding('R9', 'MessagePackDocument.integer_from_bytes|kinds|'
+                        '%s' % names, where, 'the reader takes only %s for '
+                        'the decimal text form of integers outside msgpack\'s '
+                        'native window, but integer_to_bytes writes that '
+                        'form as bytes (msgpack bin): the server cannot read '
+                        'back what it emits' % names)
+    res.floor('R9', 'kind tests in integer_from_bytes', n, 1)
+
+
+def rule_r10(prog, res):
+    from . import c08, c16
+    res.share('R10', 'binary members are encoded over the joined chunks '
+              '(C08-R5); the wrapper-key search uses the transitive subclass '
+              'list (C16-R8)', 'C08', c08.rule_b64_joined, prog, Result,
+              'R5')
+    res.share('R10', 'binary members are encoded over the joined chunks '
+              '(C08-R5); the wrapper-key search uses the transitive subclass '
+              'list (C16-R8)', 'C16', c16.rule_r8, prog, Result)
+
+
 def run(prog, res, tier):
     res.run_rule(rule_r1, prog, res)
     res.run_rule(rule_r2, prog, res)
@@ -508,6 +554,8 @@ def run(prog, res, tier):
     res.run_rule(rule_r6, prog, res)
     res.run_rule(rule_r7, prog, res)
     res.run_rule(rule_r8, prog, res)
+    res.run_rule(rule_r9, prog, res)
+    res.run_rule(rule_r10, prog, res)
 
 
 _H = 'spyne/protocol/dictdoc/hier.py'
@@ -516,6 +564,14 @@ _J = 'spyne/protocol/json.py'
 _Y = 'spyne/protocol/yaml.py'
 
 MUTANTS = [
+    Mutant('bigint-reader-str-only', 'R9', 'fire', _M,
+           in_func('MessagePackDocument.integer_from_bytes',
+                   "isinstance(value, (six.text_type, six.binary_type))",
+                   "isinstance(value, six.string_types)"), 'kinds'),
+    Mutant('bigint-reader-builtin-names', 'R9', 'benign', _M,
+           in_func('MessagePackDocument.integer_from_bytes',
+                   "isinstance(value, (six.text_type, six.binary_type))",
+                   "isinstance(value, (str, bytes))"), None),
     Mutant('cycle-guard-shared', 'R6', 'fire', _H,
            in_func('HierDictDocument._get_member_pairs',
                    "tags = tags | {id(inst)}", "tags.add(id(inst))"),
